@@ -64,10 +64,59 @@ theorem mem_integer (s : SI) (x : Nat) (hw : s.WF) (hi : s.lb = s.ub) (hx : s.me
 
 theorem has_of_m (b : Bool) : BoolRes.m.has b = true := by cases b <;> rfl
 
+/-- what a name says about the value `v` of the node that carries it: the name of variable `i` - `v` is the value of that
+variable; the fresh name created at node `t` - `v` is the value of `t` (values are numbers, so `zero_extend`, a
+non-negative `sign_extend` and a full-width `extract` keep them) -/
+def NameOK (env : Nat → Nat) (n : Option NameKey) (v : Nat) : Prop :=
+  match n with
+  | none => True
+  | some (.var i) => v = env i
+  | some (.node t) => evalBV env t = some v
+
+/-- two values under one name are equal -/
+theorem nameOK_eq (env : Nat → Nat) (n : Option NameKey) (x y : Nat) (hs : n.isSome = true)
+    (hx : NameOK env n x) (hy : NameOK env n y) : x = y := by
+  cases n with
+  | none => cases hs
+  | some k =>
+    cases k with
+    | var i => simp only [NameOK] at hx hy; omega
+    | node t =>
+      simp only [NameOK] at hx hy
+      rw [hx] at hy
+      exact Option.some.inj hy
+
+/-- the name a binary operation gives its result, for a left operand that has a member -/
+theorem nameOK_bin (env : Nat → Nat) (op : BinOp) (s : SI) (n : Option NameKey) (t : BV) (v : Nat)
+    (hb : s.bottom = false) (h : evalBV env t = some v) :
+    NameOK env (if shiftKeeps op s then n else some (.node t)) v := by
+  have : shiftKeeps op s = false := by unfold shiftKeeps; rw [hb]; simp
+  simp only [this, Bool.false_eq_true, if_false]
+  exact h
+
+/-- the name of a join: the branch whose value `v` is has a member, so it is not the empty one -/
+theorem nameOK_join (env : Nat → Nat) (x y : AV) (fresh : Option NameKey) (c : Bool) (v : Nat)
+    (hx : c = true → x.si.mem v ∧ NameOK env x.name v) (hy : c = false → y.si.mem v ∧ NameOK env y.name v)
+    (hf : NameOK env fresh v) :
+    NameOK env (if x.si.bottom then y.name else if y.si.bottom then x.name else fresh) v := by
+  cases c with
+  | true =>
+    have hb : x.si.bottom = false := (hx rfl).1.1
+    simp only [hb, Bool.false_eq_true, if_false]
+    split
+    · exact (hx rfl).2
+    · exact hf
+  | false =>
+    have hb : y.si.bottom = false := (hy rfl).1.1
+    simp only [hb, Bool.false_eq_true, if_false]
+    split
+    · exact (hy rfl).2
+    · exact hf
+
 /-- what the induction carries for a bit-vector node -/
 def GoodBV (env : Nat → Nat) (e : BV) (av : AV) : Prop :=
   (av.si.WF ∧ av.si.bits = wd e) ∧
-    ∀ v, evalBV env e = some v → av.si.mem v ∧ ∀ i, av.name = some i → v = env i
+    ∀ v, evalBV env e = some v → av.si.mem v ∧ NameOK env av.name v
 
 def GoodB (env : Nat → Nat) (c : BExp) (br : BoolRes) : Prop :=
   ∀ b, evalB env c = some b → br.has b = true
@@ -98,28 +147,31 @@ theorem convBV_good (H : OpsOK) (anno : Nat → SI) (env : Nat → Nat)
     have := pure_ok _ _ h
     cases this
     refine ⟨⟨(hctx i).1, hwt⟩, ?_⟩
-    intro v hv
+    intro v hv0
+    have hv := hv0
     simp only [evalBV] at hv
     cases hv
-    exact ⟨(hctx i).2, fun j hj => by cases hj; rfl⟩
+    exact ⟨(hctx i).2, rfl⟩
   | .free i w, o, av, o', hwt, h => by
     simp only [convBV] at h
     have := pure_ok _ _ h
     cases this
     refine ⟨⟨top_WF w hwt.1, top_bits w⟩, ?_⟩
-    intro v hv
+    intro v hv0
+    have hv := hv0
     simp only [evalBV] at hv
     cases hv
-    exact ⟨(mem_top w _).2 hwt.2, fun j hj => by cases hj; rfl⟩
+    exact ⟨(mem_top w _).2 hwt.2, rfl⟩
   | .const c w, o, av, o', hwt, h => by
     simp only [convBV] at h
     have := pure_ok _ _ h
     cases this
     refine ⟨⟨const_WF c w hwt.1, by simp [wd]⟩, ?_⟩
-    intro v hv
+    intro v hv0
+    have hv := hv0
     simp only [evalBV] at hv
     cases hv
-    exact ⟨const_mem c w hwt.2, fun j hj => by cases hj⟩
+    exact ⟨const_mem c w hwt.2, hv0⟩
   | .bin op a b, o, av, o', hwt, h => by
     simp only [convBV] at h
     obtain ⟨p1, h1, h⟩ := bind_ok _ _ _ h
@@ -132,11 +184,12 @@ theorem convBV_good (H : OpsOK) (anno : Nat → SI) (env : Nat → Nat)
     have hbits : p1.1.si.bits = p2.1.si.bits := by rw [ba, bb]; exact hwt.2.2
     obtain ⟨⟨wr, br⟩, mr⟩ := H.bin op p1.1.si p2.1.si p3.1 p2.2 p3.2 wa wb hbits h3
     refine ⟨⟨wr, by rw [br, ba]; rfl⟩, ?_⟩
-    intro v hv
+    intro v hv0
+    have hv := hv0
     simp only [evalBV] at hv
     obtain ⟨x, hx, hv⟩ := obind_some _ _ _ hv
     obtain ⟨y, hy, hv⟩ := obind_some _ _ _ hv
-    refine ⟨mr x y v (ma x hx).1 (mb y hy).1 (by rw [ba]; exact hv), fun j hj => by cases hj⟩
+    refine ⟨mr x y v (ma x hx).1 (mb y hy).1 (by rw [ba]; exact hv), nameOK_bin env op _ _ _ v (ma x hx).1.1 hv0⟩
   | .neg a, o, av, o', hwt, h => by
     simp only [convBV] at h
     obtain ⟨p1, h1, h⟩ := bind_ok _ _ _ h
@@ -145,11 +198,12 @@ theorem convBV_good (H : OpsOK) (anno : Nat → SI) (env : Nat → Nat)
     obtain ⟨⟨wa, ba⟩, ma⟩ := convBV_good H anno env hctx a o p1.1 p1.2 hwt h1
     obtain ⟨⟨wr, br⟩, mr⟩ := H.neg p1.1.si wa
     refine ⟨⟨wr, by rw [br, ba]; rfl⟩, ?_⟩
-    intro v hv
+    intro v hv0
+    have hv := hv0
     simp only [evalBV] at hv
     obtain ⟨x, hx, hv⟩ := obind_some _ _ _ hv
     cases hv
-    exact ⟨by rw [← ba]; exact mr x (ma x hx).1, fun j hj => by cases hj⟩
+    exact ⟨by rw [← ba]; exact mr x (ma x hx).1, hv0⟩
   | .not a, o, av, o', hwt, h => by
     simp only [convBV] at h
     obtain ⟨p1, h1, h⟩ := bind_ok _ _ _ h
@@ -159,11 +213,12 @@ theorem convBV_good (H : OpsOK) (anno : Nat → SI) (env : Nat → Nat)
     obtain ⟨⟨wa, ba⟩, ma⟩ := convBV_good H anno env hctx a o p1.1 p1.2 hwt h1
     obtain ⟨⟨wr, br⟩, mr⟩ := H.not p1.1.si r wa h2
     refine ⟨⟨wr, by rw [br, ba]; rfl⟩, ?_⟩
-    intro v hv
+    intro v hv0
+    have hv := hv0
     simp only [evalBV] at hv
     obtain ⟨x, hx, hv⟩ := obind_some _ _ _ hv
     cases hv
-    exact ⟨by rw [← ba]; exact mr x (ma x hx).1, fun j hj => by cases hj⟩
+    exact ⟨by rw [← ba]; exact mr x (ma x hx).1, hv0⟩
   | .zext k a, o, av, o', hwt, h => by
     simp only [convBV] at h
     obtain ⟨p1, h1, h⟩ := bind_ok _ _ _ h
@@ -173,14 +228,14 @@ theorem convBV_good (H : OpsOK) (anno : Nat → SI) (env : Nat → Nat)
     obtain ⟨⟨wa, ba⟩, ma⟩ := convBV_good H anno env hctx a o p1.1 p1.2 hwt h1
     obtain ⟨⟨wr, br⟩, mr⟩ := H.zext p1.1.si r k wa h2
     refine ⟨⟨wr, by rw [br, ba]; rfl⟩, ?_⟩
-    intro v hv
+    intro v hv0
+    have hv := hv0
     simp only [evalBV] at hv
     refine ⟨mr v (ma v hv).1, ?_⟩
-    intro j hj
-    simp only [] at hj
-    split at hj
-    · exact (ma v hv).2 j hj
-    · cases hj
+    dsimp only
+    split
+    · exact (ma v hv).2
+    · exact hv0
   | .sext k a, o, av, o', hwt, h => by
     simp only [convBV] at h
     obtain ⟨p1, h1, h⟩ := bind_ok _ _ _ h
@@ -191,20 +246,20 @@ theorem convBV_good (H : OpsOK) (anno : Nat → SI) (env : Nat → Nat)
     obtain ⟨⟨wa, ba⟩, ma⟩ := convBV_good H anno env hctx a o p1.1 p1.2 hwt h1
     obtain ⟨⟨wr, br⟩, mr⟩ := H.sext p1.1.si r k wa h2
     refine ⟨⟨wr, by rw [br, ba]; rfl⟩, ?_⟩
-    intro v hv
+    intro v hv0
+    have hv := hv0
     simp only [evalBV] at hv
     obtain ⟨x, hx, hv⟩ := obind_some _ _ _ hv
     cases hv
     refine ⟨by rw [← ba]; exact mr x (ma x hx).1, ?_⟩
-    intro j hj
-    simp only [] at hj
+    dsimp only
     cases keeps with
-    | false => simp at hj
+    | false => simp only [Bool.false_eq_true, if_false]; exact hv0
     | true =>
-      simp only [if_true] at hj
+      simp only [if_true]
       have hsame := H.sextKeeps p1.1.si k x wa h3 (ma x hx).1
       rw [← ba, hsame]
-      exact (ma x hx).2 j hj
+      exact (ma x hx).2
   | .extract hi lo a, o, av, o', hwt, h => by
     simp only [convBV] at h
     obtain ⟨p1, h1, h⟩ := bind_ok _ _ _ h
@@ -214,14 +269,14 @@ theorem convBV_good (H : OpsOK) (anno : Nat → SI) (env : Nat → Nat)
     obtain ⟨⟨wa, ba⟩, ma⟩ := convBV_good H anno env hctx a o p1.1 p1.2 hwt.1 h1
     obtain ⟨⟨wr, br⟩, mr⟩ := H.extract p1.1.si r hi lo wa hwt.2.1 (by rw [ba]; exact hwt.2.2) h2
     refine ⟨⟨wr, by rw [br]; rfl⟩, ?_⟩
-    intro v hv
+    intro v hv0
+    have hv := hv0
     simp only [evalBV] at hv
     obtain ⟨x, hx, hv⟩ := obind_some _ _ _ hv
     cases hv
     refine ⟨mr x (ma x hx).1, ?_⟩
-    intro j hj
-    simp only [] at hj
-    split at hj
+    dsimp only
+    split
     · rename_i hk
       have hk' : lo = 0 ∧ hi + 1 - lo = p1.1.si.bits := by simpa [extractKeeps] using hk
       have hxlt : x < 2 ^ p1.1.si.bits := (ma x hx).1.2.1
@@ -231,8 +286,8 @@ theorem convBV_good (H : OpsOK) (anno : Nat → SI) (env : Nat → Nat)
         have : hi + 1 - 0 = p1.1.si.bits := by rw [← hk'.1]; exact hk'.2
         rw [this, Nat.mod_eq_of_lt hxlt]
       rw [this]
-      exact (ma x hx).2 j hj
-    · cases hj
+      exact (ma x hx).2
+    · exact hv0
   | .concat a b, o, av, o', hwt, h => by
     simp only [convBV] at h
     obtain ⟨p1, h1, h⟩ := bind_ok _ _ _ h
@@ -244,12 +299,13 @@ theorem convBV_good (H : OpsOK) (anno : Nat → SI) (env : Nat → Nat)
     obtain ⟨⟨wb, bb⟩, mb⟩ := convBV_good H anno env hctx b p1.2 p2.1 p2.2 hwt.2 h2
     obtain ⟨⟨wr, br⟩, mr⟩ := H.concat p1.1.si p2.1.si r wa wb h3
     refine ⟨⟨wr, by rw [br, ba, bb]; rfl⟩, ?_⟩
-    intro v hv
+    intro v hv0
+    have hv := hv0
     simp only [evalBV] at hv
     obtain ⟨x, hx, hv⟩ := obind_some _ _ _ hv
     obtain ⟨y, hy, hv⟩ := obind_some _ _ _ hv
     cases hv
-    exact ⟨by rw [← bb]; exact mr x y (ma x hx).1 (mb y hy).1, fun j hj => by cases hj⟩
+    exact ⟨by rw [← bb]; exact mr x y (ma x hx).1 (mb y hy).1, hv0⟩
   | .ite c a b, o, av, o', hwt, h => by
     simp only [convBV] at h
     obtain ⟨pc, hc, h⟩ := bind_ok _ _ _ h
@@ -268,7 +324,8 @@ theorem convBV_good (H : OpsOK) (anno : Nat → SI) (env : Nat → Nat)
       have := pure_ok _ _ h3
       cases this
       refine ⟨⟨wb, by rw [bb]; exact hwt.2.2.2.symm⟩, ?_⟩
-      intro v hv
+      intro v hv0
+      have hv := hv0
       simp only [evalBV] at hv
       obtain ⟨cv, hcv, hv⟩ := obind_some _ _ _ hv
       have hh := gc cv hcv
@@ -281,7 +338,8 @@ theorem convBV_good (H : OpsOK) (anno : Nat → SI) (env : Nat → Nat)
         have := pure_ok _ _ h3
         cases this
         refine ⟨⟨wa, ba⟩, ?_⟩
-        intro v hv
+        intro v hv0
+        have hv := hv0
         simp only [evalBV] at hv
         obtain ⟨cv, hcv, hv⟩ := obind_some _ _ _ hv
         have hh := gc cv hcv
@@ -294,13 +352,19 @@ theorem convBV_good (H : OpsOK) (anno : Nat → SI) (env : Nat → Nat)
         cases this
         obtain ⟨⟨wr, br⟩, mr⟩ := H.union p1.1.si p2.1.si u wa wb hbits hu
         refine ⟨⟨wr, by rw [br, ba]; rfl⟩, ?_⟩
-        intro v hv
+        intro v hv0
+        have hv := hv0
         simp only [evalBV] at hv
         obtain ⟨cv, hcv, hv⟩ := obind_some _ _ _ hv
-        refine ⟨?_, fun j hj => by cases hj⟩
         cases cv with
-        | true => simp only [if_true] at hv; exact mr v (Or.inl (ma v hv).1)
-        | false => simp only [Bool.false_eq_true, if_false] at hv; exact mr v (Or.inr (mb v hv).1)
+        | true =>
+          simp only [if_true] at hv
+          exact ⟨mr v (Or.inl (ma v hv).1),
+            nameOK_join env p1.1 p2.1 _ true v (fun _ => ma v hv) (fun hh => by cases hh) hv0⟩
+        | false =>
+          simp only [Bool.false_eq_true, if_false] at hv
+          exact ⟨mr v (Or.inr (mb v hv).1),
+            nameOK_join env p1.1 p2.1 _ false v (fun hh => by cases hh) (fun _ => mb v hv) hv0⟩
 /-- … and of `convB`. -/
 theorem convB_good (H : OpsOK) (anno : Nat → SI) (env : Nat → Nat)
     (hctx : ∀ i, (anno i).WF ∧ (anno i).mem (env i)) :
@@ -352,10 +416,7 @@ theorem convB_good (H : OpsOK) (anno : Nat → SI) (env : Nat → Nat)
           have := pure_ok _ _ hrr
           subst this
           have hn' : p1.1.name.isSome = true ∧ p1.1.name = p2.1.name := by simpa using hn
-          obtain ⟨i, hi⟩ := Option.isSome_iff_exists.1 hn'.1
-          have e1 := (ma x hx).2 i hi
-          have e2 := (mb y hy).2 i (by rw [← hn'.2]; exact hi)
-          have : x = y := by omega
+          have : x = y := nameOK_eq env p1.1.name x y hn'.1 (ma x hx).2 (by rw [hn'.2]; exact (mb y hy).2)
           simp [this, BoolRes.has, BoolRes.hasTrue]
         · rw [if_neg hn] at hrr
           obtain ⟨m, hm, hrr⟩ := bind_ok _ _ _ hrr
